@@ -460,6 +460,39 @@ def c_poly(ctx, case):
                 ctx.fail("C19.poly", case, f"normal-form:{name}",
                          f"({da}) {name} ({db}) = {R.data}: exponents not strictly increasing / zero "
                          f"coefficient kept")
+    # accumulation: total = 0; total += A; total += B ... -- augmented assignment rebinds the
+    # name; the polynomials that were added (0 + A IS A) are what they were
+    a_data, b_data = A.data, B.data
+    import operator as _o
+    for nm, aug, plain in (("+=", _o.iadd, lambda u, v: u + v), ("-=", _o.isub, lambda u, v: u - v),
+                           ("*=", _o.imul, lambda u, v: u * v)):
+        ctx.count("poly_augmented")
+        try:
+            total = 0 if nm != "*=" else 1
+            total = aug(total, A)
+            step1 = total
+            total = aug(total, B)
+            alias = A + 0
+            alias = aug(alias, B)
+        except Exception as ex:  # noqa: BLE001
+            ctx.fail("C19.poly", case, f"raised:{nm}:{type(ex).__name__}", f"{da} {nm} {db}: {ex}")
+            continue
+        if A.data != a_data or B.data != b_data:
+            ctx.fail("C19.poly", case, f"operand-changed:{nm}",
+                     f"total = {0 if nm != '*=' else 1}; total {nm} A; total {nm} B with A = {a_data}, "
+                     f"B = {b_data}: afterwards A holds {A.data}, B holds {B.data}")
+            A = Polynomial(X, a_data)
+            B = Polynomial(X, b_data)
+            continue
+        for xv in pts[:2]:
+            t0 = 0 if nm != "*=" else 1
+            want = plain(plain(t0, pval(da, xv)), pval(db, xv))
+            got = refsem.outcome(lambda: peval_lib(total, xv))
+            if got[0] != "v" or got[1] != want:
+                ctx.fail("C19.poly", case, f"accumulated-value:{nm}",
+                         f"accumulating {da} and {db} with {nm}: value at {xv} is {short(got)}, "
+                         f"expected {want}")
+                break
     # quotient with remainder: a == q*b + r as functions
     if db:
         ctx.case(None)
@@ -821,6 +854,7 @@ def workload(ctx):
     ctx.floor("fft_calls", 120)
     ctx.floor("symfft_calls", 20)
     ctx.floor("poly_ops", 5000)
+    ctx.floor("poly_augmented", 3000)
     ctx.floor("poly_kind_rewrites", 150)
     ctx.floor("poly_divmod_spellings", 1000)
     ctx.floor("big_polynomial_term_pairs", 50000)
